@@ -1349,6 +1349,8 @@ class Interp:
         ty = c.get('ty', '?')
         if 'str' in c:
             return SliceVal(K(len(c['str'].encode()), 'usize'), 'str:' + c['str'][:40])
+        if 'bytes' in c:
+            return Opaque(c.get('ty', '&[u8]'), ('bytes', tuple(c['bytes'])))
         if ty in ('&str', "&'static str"):
             return SliceVal(st.fresh('usize', 0, 2**40, 'strlen'), 'str')
         return Opaque(ty, str(c.get('opaque'))[:40])
